@@ -2,16 +2,17 @@ package drive
 
 import (
 	"bytes"
-	"encoding/hex"
-	"sort"
 	"encoding/binary"
+	"encoding/hex"
 	"errors"
 	"fmt"
 	"io"
 	"math/rand"
 	"net"
 	"runtime"
+	"sort"
 	"sync"
+	"sync/atomic"
 	"time"
 	"unicode/utf8"
 
@@ -42,11 +43,11 @@ type RFrame struct {
 
 // RCut describes a transport fault.
 type RCut struct {
-	Frame  int    `json:"frame"` // 1-based; Len(frames)+1 = after the last frame
-	Part   string `json:"part"`  // "start" | "hdr1" | "hdr" | "pay0" | "pay" | "end"
-	Var    int    `json:"var"`   // selects the concrete offset inside the class
-	Kind   string `json:"kind"`  // "eof" | "err" | "timeout"
-	With   bool   `json:"with"`  // error returned together with the last bytes
+	Frame  int    `json:"frame"`  // 1-based; Len(frames)+1 = after the last frame
+	Part   string `json:"part"`   // "start" | "hdr1" | "hdr" | "pay0" | "pay" | "end"
+	Var    int    `json:"var"`    // selects the concrete offset inside the class
+	Kind   string `json:"kind"`   // "eof" | "err" | "timeout"
+	With   bool   `json:"with"`   // error returned together with the last bytes
 	Resume bool   `json:"resume"` // the transport keeps yielding the rest of the stream afterwards
 }
 
@@ -111,6 +112,7 @@ type concFrame struct {
 }
 
 type readerRun struct {
+	healed int32
 	p      *RProg
 	cf     []concFrame
 	expect map[int][]byte // message start frame (1-based) -> expected content
@@ -127,6 +129,9 @@ func noErr() Ev { return Ev{"cls": "nil", "id": -1, "code": 0, "cand": []int{}} 
 func (r *readerRun) classify(err error) Ev {
 	if err == nil {
 		return noErr()
+	}
+	if err != io.EOF {
+		atomic.StoreInt32(&r.healed, 1) // an error has been reported to the application
 	}
 	e := Ev{"id": r.errs.id(err), "code": 0, "cand": []int{}, "txt": truncate(err.Error(), 80)}
 	var ne net.Error
@@ -530,7 +535,9 @@ func (r *readerRun) run(stream []byte) (evs []Ev) {
 		failStart = cutOff
 	}
 	if resume && cutOff < len(stream) {
-		chunks = append(chunks, xport.Chunk{Data: stream[cutOff:]})
+		// the transport delivers again only after the application has been told about the failure
+		// (until then it keeps failing): C05's last clause is about what happens AFTER a reported error
+		chunks = append(chunks, xport.Chunk{Data: stream[cutOff:], Gate: &r.healed})
 	}
 	sc := xport.New(chunks)
 	sc.EndErr = ferr
